@@ -85,6 +85,11 @@ Theorem C19_meta_total : forall kt m,
   (forall bs, decode kt bs <> None) -> deser_meta kt m <> MPanic.
 Proof. exact deser_meta_total. Qed.
 
+(* primitive message types (blanket Message impl of every BytesConvertable type) *)
+Theorem C19_prim_roundtrip : forall t v, wf_val t v = true ->
+  prim_deserialize t (prim_serialize t v) = POk v.
+Proof. exact prim_roundtrip. Qed.
+
 (* ===== frames ===== *)
 
 (* decoding is independent of how the byte stream is split into reads:
@@ -226,6 +231,7 @@ Print Assumptions C19_unpack_safe.
 Print Assumptions C19_deser_fields_spec.
 Print Assumptions C19_meta_short.
 Print Assumptions C19_meta_total.
+Print Assumptions C19_prim_roundtrip.
 Print Assumptions C19_fragmentation.
 Print Assumptions C19_fragmentation_run.
 Print Assumptions C19_frame_bound.
